@@ -239,7 +239,8 @@ claim("C14",
 claim("C15",
       "Theorems (Coq, unbounded over schedules and thread counts): with one context per thread (Model/Ctx.v: tctx), what the "
       "colour look-ups of thread t observe in ANY interleaving of context events equals what they observe when t's events run "
-      "alone, and every look-up made during an encode of d sees d's own palette; with a single shared context the statement is "
+      "alone, and every look-up made during an encode of d sees d's own palette - also when each thread runs any number of encodes "
+      "one after another (C15_many_encodes); with a single shared context the statement is "
       "refuted by a witness schedule. Against the implementation: real threads under a deterministic baton scheduler that "
       "preempts at library call boundaries (sys.settrace); one preemption at every boundary (thorough: exhaustive for three "
       "document pairs in both directions; quick: all boundaries around context reads/writes plus a sample) and sampled 2-3 "
